@@ -19,7 +19,9 @@
 (*                           nothing at the end of the template)           *)
 (*   k "lcomment"            i (blanks) line_comment_prefix b              *)
 (* cfg    = [bs, be, vs, ve, cs, ce, lsp, lcp  (sequences; <<>> = unset),  *)
-(*           trim, lstrip, keep (BOOLEAN), nl (newline_sequence)]          *)
+(*           trim, lstrip, keep (BOOLEAN), nl (newline_sequence),          *)
+(*           fin (the environment's finalize hook: "" none, or how it is   *)
+(*           called: "plain" "env" "ctx" "evalctx"), ae (autoescape)]      *)
 (***************************************************************************)
 EXTENDS Text
 
@@ -144,6 +146,25 @@ OutCharsFrom(S, idx, j, nl) ==
 OutChars(S, idx, nl) == OutCharsFrom(S, idx, 1, nl)
 
 DeclOut(ps, c) == OutChars(DeclSrc(ps, c), DeclOutIdx(ps, c), c.nl)
+
+(* -- rendering hooks ------------------------------------------------------ *)
+(* docs/api.rst: finalize is "a callable that can be used to process the    *)
+(* result of a variable expression before it is output", autoescape escapes *)
+(* the result of variable expressions.  Both apply to what a variable TAG   *)
+(* prints - whether the hook takes the value alone ("plain"), the           *)
+(* environment, the render context or the evaluation context (the last two  *)
+(* can only run at render time) - and never to template data: every source  *)
+(* index of the provenance is output as the character it holds.  The hook   *)
+(* of the harness puts the value in brackets.                               *)
+Printed(c) == IF c.fin = "" THEN <<"P">> ELSE <<"[", "P", "]">>
+
+RECURSIVE RenderCharsFrom(_, _, _, _)
+RenderCharsFrom(S, idx, j, c) ==
+    IF j > Len(idx) THEN <<>>
+    ELSE (IF idx[j] = 0 THEN Printed(c) ELSE IF S[idx[j]] = "n" THEN c.nl ELSE <<S[idx[j]]>>)
+         \o RenderCharsFrom(S, idx, j + 1, c)
+
+RenderChars(S, idx, c) == RenderCharsFrom(S, idx, 1, c)
 
 (* -- C11: text without any delimiter start ------------------------------- *)
 Starts(c) == {c.bs, c.vs, c.cs} \cup (IF c.lsp = <<>> THEN {} ELSE {c.lsp})
